@@ -189,6 +189,9 @@ theorem ok1_decPrim (p : Prim) (s : AbsSrc) (hw : s.WF) :
     refine ok1_ite _ _ _ _ _ (fun _ => ok1_fail _ _ _) (fun _ => ?_)
     refine ok1_bind _ _ _ _ _ (ok1_readVarI32 s0 f0.wf) (fun _ s1 f1 _ => ?_)
     exact ok1_ite _ _ _ _ _ (fun _ => ok1_pure _ _ f1.wf _ (by simp)) (fun _ => ok1_fail _ _ _)
+  | varu32 =>
+    simp only [decPrim]
+    exact ok1_bind _ _ _ _ _ (ok1_readVarU32 s hw) (fun _ s0 f0 _ => ok1_pure _ _ f0.wf _ (by simp))
 
 /-- a byte read makes progress: the continuation runs with strictly fewer bytes left -/
 theorem ok1_readU8_bind {β : Type} (k : Byte → DProg β) (s : AbsSrc) (hw : s.WF) (R : β → Prop)
